@@ -11,4 +11,8 @@ let table : (Stdlib.String.t * (z list -> z list)) list = [
   "c18", c18_entry;
   "c18s", c18s_entry;
   "c03", c03_entry;
+  "c05v", c05v_entry;
+  "c05e", c05e_entry;
+  "c05vs", c05vs_entry;
+  "c05es", c05es_entry;
 ]
